@@ -32,7 +32,8 @@ CONFIG = dict(
                        "query_keeps_dirty", "set_query_push_delivers", "pending_survives_reads", "latest_write_wins",
                        "next_request_follows_push", "write_events_are_sets_and_pushes", "handler_writes_only_its_connection",
                        "target_stable", "maps_have_unique_keys", "dead_statements_change_nothing", "reset_same_value_still_pushed",
-                       "node_state_irrelevant", "reach_iff_member", "away_front_unreachable"],
+                       "node_state_irrelevant", "reach_iff_member", "away_front_unreachable",
+                       "push_without_waiting_is_delivered_at_once", "session_keeps_its_connection"],
     harness_pkg="./c10",
     mode="diff",
     reset_prefix="reset",
@@ -48,7 +49,7 @@ CONFIG = dict(
          "1-6 session statements (get/set/bind/id/push/query/json/keep over keys chatid, _ID, ascii/unicode/empty keys; values: scalars, nested lists/maps, "
          "ints beyond 2^53, float32, typed slices, invalid-UTF-8 and HTML strings, NaN/Inf; chatid mostly a live instance, sometimes unknown/non-string/empty; "
          "_ID sometimes not a string), scripts on kept and on directly made back sessions (live, closed, never-existing connections, unknown front), "
-         "close (a third of them with an application close callback: benign, panicking per-connection AddOnSessionOnClose, panicking sessions handler) mostly followed at once by a push/query from a session that still addresses the closed connection, open, the A/B/A pattern (two made sessions on different services: A sets k=v and pushes, B sets k=w and pushes, A sets k=v AGAIN and pushes) and kept sessions re-setting a key to the value they set before, cluster-view changes (every service re-published as its own member in a random node state Init/Working/Retiring/Retired, fronts mostly not Working, now and then a front or a back service missing) mostly followed at once by a query/push of a held session, white-box snapshots of every front map; pure cases (1 of 4): bare FrontSession/BackSession objects, UpdateFromJson/FromJson incl. "
+         "close (a third of them with an application close callback: benign, panicking per-connection AddOnSessionOnClose, panicking sessions handler) mostly followed at once by a push/query from a session that still addresses the closed connection, open, the A/B/A pattern (two made sessions on different services: A sets k=v and pushes, B sets k=w and pushes, A sets k=v AGAIN and pushes) and kept sessions re-setting a key to the value they set before, cluster-view changes (every service re-published as its own member in a random node state Init/Working/Retiring/Retired, fronts mostly not Working, now and then a front or a back service missing) mostly followed at once by a query/push of a held session, pushes the handler does not wait for before it answers (`pushnw`; every answered request also reports the connection's map at the moment the front relays the answer, taken by a wrapper around the session's IClientSession), handlers that suspend without answering (`park`: they keep their HandlerContext, not the session), 1-3 requests of other connections handled by the same service type meanwhile, then `resume` (re-read the session from the context, set, push, answer), white-box snapshots of every front map; pure cases (1 of 4): bare FrontSession/BackSession objects, UpdateFromJson/FromJson incl. "
          "malformed JSON; last an unguarded stream (reserved keys written; recorded only); corpus first. A case is non-trivial when its observation carries "
          "handler results or a snapshot; distinct = distinct (op, observation) pairs",
     trusted_base=[
